@@ -132,11 +132,35 @@ def used_chars(text, fn, const):
     return True
 
 
-def package_types(text):
+def package_variants(text):
     m = re.search(r"pub\s+enum\s+PackageType\s*\{(.*?)\}", text, re.S)
     if not m:
         raise TranslateError("enum PackageType not found")
-    variants = [v.strip() for v in re.sub(r"#\[.*?\]", "", m.group(1)).split(",") if v.strip()]
+    return [v.strip() for v in re.sub(r"#\[.*?\]", "", m.group(1)).split(",") if v.strip()]
+
+
+def package_names(text):
+    """name() and the serde renaming: finite, also observable from the compiled code (probe: typeNames, typeSerde)"""
+    variants = package_variants(text)
+    m = re.search(r"pub\s+const\s+fn\s+name\s*\(&self\)\s*->\s*&'static\s+str\s*\{\s*match\s+self\s*\{(.*?)\}\s*\}", text, re.S)
+    if not m:
+        raise TranslateError("PackageType::name not found")
+    names = {}
+    for am in re.finditer(r"(?:PackageType|Self)::(\w+)\s*=>\s*\"(.*?)\"", m.group(1)):
+        names[am.group(1)] = am.group(2)
+    if len(names) != m.group(1).count("=>"):
+        raise TranslateError("name() has arms of an unexpected shape")
+    sm = re.search(r"serde\(\s*rename_all\s*=\s*\"(\w+)\"\s*\)\s*\)\s*\]\s*(?:#\[.*?\]\s*)*pub\s+enum\s+PackageType", text, re.S)
+    rename = sm.group(1) if sm else None
+    if rename not in ("lowercase",):
+        raise TranslateError("serde rename_all=%r not understood" % rename)
+    if set(names) != set(variants):
+        raise TranslateError("name() arms %s do not cover the variants %s" % (sorted(names), variants))
+    return names, rename
+
+
+def package_types(text):
+    variants = package_variants(text)
     m = re.search(r"phf_map!\s*\{(.*?)\}\s*;", text, re.S)
     if not m:
         raise TranslateError("phf_map! not found")
@@ -147,20 +171,6 @@ def package_types(text):
         raise TranslateError("phf_map! has entries of an unexpected shape")
     # a phf map has no order: list the entries in the order of the enum's variants (stable for repeated variants)
     phf.sort(key=lambda e: (variants.index(e["variant"]) if e["variant"] in variants else len(variants)))
-    m = re.search(r"pub\s+const\s+fn\s+name\s*\(&self\)\s*->\s*&'static\s+str\s*\{\s*match\s+self\s*\{(.*?)\}\s*\}", text, re.S)
-    if not m:
-        raise TranslateError("PackageType::name not found")
-    names = {}
-    for am in re.finditer(r"PackageType::(\w+)\s*=>\s*\"(.*?)\"", m.group(1)):
-        names[am.group(1)] = am.group(2)
-    if len(names) != m.group(1).count("=>"):
-        raise TranslateError("name() has arms of an unexpected shape")
-    sm = re.search(r"serde\(\s*rename_all\s*=\s*\"(\w+)\"\s*\)\s*\)\s*\]\s*(?:#\[.*?\]\s*)*pub\s+enum\s+PackageType", text, re.S)
-    rename = sm.group(1) if sm else None
-    if rename not in ("lowercase",):
-        raise TranslateError("serde rename_all=%r not understood" % rename)
-    if set(names) != set(variants):
-        raise TranslateError("name() arms %s do not cover the variants %s" % (sorted(names), variants))
     # the lookup itself: which strings `from_str` accepts is an infinite question that no correspondence run can
     # settle (a hash comparison with rare collisions would pass every test), so its body is pinned — not textually, but
     # to this shape: the parameter occurs EXACTLY ONCE in the body, as `TABLE.get(&UniCase::new(param))`, TABLE being the
@@ -185,7 +195,7 @@ def package_types(text):
     uses = re.findall(r"(?<![A-Za-z0-9_])" + re.escape(param) + r"(?![A-Za-z0-9_])", body)
     if len(lookups) != 1 or len(uses) != 1:
         raise TranslateError("PackageType::from_str is no longer (only) the table lookup: %s" % body[:200])
-    return variants, phf, names, rename
+    return variants, phf
 
 
 def checksum_key(text):
@@ -256,7 +266,7 @@ def field_names(text):
     if not m:
         raise TranslateError("PurlField::name not found")
     out = {}
-    for am in re.finditer(r"PurlField::(\w+)\s*=>\s*\"(.*?)\"", m.group(1)):
+    for am in re.finditer(r"(?:PurlField|Self)::(\w+)\s*=>\s*\"(.*?)\"", m.group(1)):
         out[am.group(1)] = am.group(2)
     if set(out) != {"PackageType", "Namespace", "Name", "Version", "Subpath"}:
         raise TranslateError("PurlField::name arms unexpected: %s" % sorted(out))
@@ -334,8 +344,13 @@ def translate():
 
     def do_types():
         _, pt = read("package_type.rs")
-        variants, phf, names, rename = package_types(pt)
-        return {"variants": variants, "phf": phf, "names": names, "serdeRename": rename}
+        variants, phf = package_types(pt)
+        return {"variants": variants, "phf": phf}
+
+    def do_names():
+        _, pt = read("package_type.rs")
+        names, rename = package_names(pt)
+        return {"names": names, "serdeRename": rename}
 
     def do_keys():
         _, wk = read("qualifiers/well_known.rs")
@@ -372,6 +387,7 @@ def translate():
     attempt("keySpecials", do_key_specials)
     attempt("dashChars", do_dash)
     attempt("types", do_types)
+    attempt("names", do_names)
     attempt("keys", do_keys)
     attempt("scheme", do_scheme)
     attempt("combined", do_combined)
@@ -381,7 +397,7 @@ def translate():
 
 
 ITEM_KEYS = {"sets": ["sets", "setNames"], "typeSpecials": ["typeSpecials"], "keySpecials": ["keySpecials"], "dashChars": ["dashChars"],
-             "types": ["variants", "phf", "names", "serdeRename"], "keys": ["checksumKey", "knownKeys"], "scheme": ["scheme"],
+             "types": ["variants", "phf"], "names": ["names", "serdeRename"], "keys": ["checksumKey", "knownKeys"], "scheme": ["scheme"],
              "combined": ["combinedSplit", "combinedJoin"],
              "errors": ["parseErrorText", "packageErrorText", "unsupportedPackageTypeText", "fieldNames"]}
 
